@@ -61,10 +61,12 @@ def Parser.seekToNextBlock (p : Parser) : R Parser :=
 
 def magicBytes : Bytes := Gen.magic.map UInt8.ofNat
 
+/-- the stored checksum: little-endian 32-bit value of four bytes
+(the C code assembles it with `|=` and `<<= 8`; on bytes that is the same number) -/
 def le32 (bs : Bytes) : BitVec 32 :=
   match bs with
   | [b0, b1, b2, b3] =>
-    BitVec.ofNat 32 (((((b3.toNat <<< 8) ||| b2.toNat) <<< 8 ||| b1.toNat) <<< 8) ||| b0.toNat)
+    BitVec.ofNat 32 (b0.toNat + 256 * b1.toNat + 65536 * b2.toNat + 16777216 * b3.toNat)
   | _ => 0
 
 /-- `sb_i_binary_file_parser_init_common` -/
@@ -120,8 +122,7 @@ The memory route hands out a view into the caller's buffer; the view must lie in
 (otherwise every later read of it is out of bounds). -/
 def Parser.readCurrentBlockEx (p : Parser) : R (Bytes × Bool × Parser) :=
   if p.mem then
-    if !p.isCurrentBlockValid then .error .eread
-    else if p.curStart + p.curLength > p.data.length then .error .eread
+    if p.curStart + p.curLength > p.data.length then .error .eread
     else .ok ((p.data.drop p.curStart).take p.curLength, false, p)
   else do
     let (body, p1) ← p.readCurrentBlock
